@@ -196,7 +196,9 @@ def _tuple_jobs(tier, prop):
             defs.append("IDX=%d" % idx); name += ".i%s" % (str(idx).replace("-", "m"))
         if m is not None:
             defs.append("M=%d" % m); name += ".m%d" % m
-        if not heap:
+        if heap == 2:
+            defs.append("HEAP=2"); name += ".embedded"
+        elif not heap:
             defs.append("HEAP=0"); name += ".stack_" + op
         if dup:
             defs.append("DUP=1")
@@ -230,6 +232,8 @@ def _tuple_jobs(tier, prop):
         add("del", n, covers=True, extra=["--memory-leak-check"])
         add("iter", n, covers=True)
         add("mark", n, covers=True)
+        if n >= 1:
+            add("mark", n, heap=2, covers=True)      # a Tuple embedded in a container: nothing but its Mark instance reaches its items
         add("show", n, covers=True)
         if n >= 2:
             add("iter", n, dup=1, group="iter_dup")
